@@ -396,7 +396,7 @@ def _run_group(rep, wd, sigs, BACKENDS, totals):
                             res["probs"].append((b, cls, det, s.describe()))
                 else:
                     texts = {}
-                    for owner in ("Op", "OpL", "SB"):
+                    for owner in ("Op", "OpL", "SB", "S2"):
                         fn = {"js": "%s.mjs", "dart": "%s.g.dart", "kotlin": "src/main/kotlin/dev/verif/somelib/%s.kt"}[b] % owner
                         pth = os.path.join(out, fn)
                         if os.path.exists(pth):
